@@ -177,7 +177,7 @@ def batch_differential(dense_proj, cuda_proj, cells, ys, policies=((1, 1), (2, 0
             if bad:
                 i = bad[0]
                 never = fgot[i] != fgot[i] and fref[i] == fref[i]
-                failures.append((f"cuda-batch/fex/{'never-written/' if never else ''}{where}", f"{pol}: cell {c} of {len(cells)}: ydot[{i}] = {fgot[i]!r} in the batched kernel, {fref[i]!r} in the dense back-end for the same cell"))
+                failures.append((f"cuda-batch/fex/{'nan-or-never-written/' if never else ''}{where}", f"{pol}: cell {c} of {len(cells)}: ydot[{i}] = {fgot[i]!r} in the batched kernel, {fref[i]!r} in the dense back-end for the same cell"))
             jref = dict(ref[c]["J"])
             got = {}
             da = run["DA"][c]
@@ -193,7 +193,7 @@ def batch_differential(dense_proj, cuda_proj, cells, ys, policies=((1, 1), (2, 0
                 w = jref.get(rc_, 0.0)
                 if not close(v, w):
                     never = v != v
-                    failures.append((f"cuda-batch/jac/{'never-written/' if never else ''}{where}", f"{pol}: cell {c} of {len(cells)}: J{rc_} = {v!r} in the batched kernel, {w!r} in the dense back-end for the same cell"))
+                    failures.append((f"cuda-batch/jac/{'nan-or-never-written/' if never else ''}{where}", f"{pol}: cell {c} of {len(cells)}: J{rc_} = {v!r} in the batched kernel, {w!r} in the dense back-end for the same cell"))
                     break
             missing = [rc_ for rc_, w in jref.items() if rc_ not in got and w != 0.0]
             if missing:
